@@ -289,7 +289,8 @@ def r2(ctx):
             p, hits = guard_check(f, [t], isstr, kills=loop)
             ctx.check("C09.R2", p is None, key(f, "type-check-first|" + var), site(f, t), "`%s` is matched against a str pattern before its type was checked (bytes would raise TypeError -> 500 after partial processing)" % var,
                       "isinstance(%s, str) first" % var, path=p and g.fmt_path(p))
-            ctx.check("C09.R2", rt[2] == "fullmatch", key(f, "fullmatch|" + var), site(f, t), "`%s`: header validators must use fullmatch" % norm(t.ast), "fullmatch")
+            ctx.check("C09.R2", regexset.is_full(rt[0].pattern, rt[0].flags, rt[2]), key(f, "fullmatch|" + var), site(f, t),
+                      "`%s`: a header validator must judge the whole string (fullmatch, or match of a pattern that ends in \\Z -- not `$`, which also matches in front of a final newline)" % norm(t.ast), "whole-string match")
         # name uses the token class
         apps = header_appends(ctx, lnode)
         ctx.need(apps, "C09.R2: process_headers never appends")
